@@ -258,47 +258,53 @@ def classify(exc):
 
 
 class SplitTrace(object):
-    """records the (path, r0, r1) lists handed to _process_chunk_spec, in
-    buffer creation order, without touching the repository"""
+    """records the (path, r0, r1) lists handed to the per-worker function
+    (`_process_chunk_spec`), without touching the repository.  Only WHICH
+    chunks each worker got is observed - not temp-file names, not the order
+    of the buffers.  If the worker function cannot be wrapped (renamed,
+    other signature) nothing is recorded and the suite falls back to the
+    split the model computes."""
 
     def __init__(self, trace_dir):
         self.trace_dir = pathlib.Path(trace_dir)
-        self.order = []
+        self.pfa = None
 
     def __enter__(self):
         from cell_type_mapper.diff_exp import precompute_from_anndata as pfa
+        orig_spec = getattr(pfa, '_process_chunk_spec', None)
+        if orig_spec is None:
+            return self
         self.pfa = pfa
-        self.orig_spec = pfa._process_chunk_spec
-        self.orig_mk = pfa.mkstemp_clean
+        self.orig_spec = orig_spec
         trace_dir = self.trace_dir
-        orig_spec = self.orig_spec
 
-        def spec(**kw):
-            spec_list = [(str(c[0]), int(c[1]), int(c[2]))
-                         for c in kw['chunk_specification_list']]
-            out = trace_dir / (pathlib.Path(kw['buffer_path']).name + '.json')
-            out.write_text(json.dumps(spec_list))
-            return orig_spec(**kw)
-
-        def mk(*a, **kw):
-            p = self.orig_mk(*a, **kw)
-            if kw.get('prefix') == 'precomputation_buffer_':
-                self.order.append(pathlib.Path(p).name)
-            return p
+        def spec(*a, **kw):
+            try:
+                chunks = kw.get('chunk_specification_list',
+                                a[0] if a else None)
+                spec_list = [(str(c[0]), int(c[1]), int(c[2]))
+                             for c in chunks]
+                import os
+                import uuid
+                out = trace_dir / ('load_%d_%s.json'
+                                   % (os.getpid(), uuid.uuid4().hex))
+                out.write_text(json.dumps(spec_list))
+            except Exception:   # noqa: tracing must never break the run
+                pass
+            return orig_spec(*a, **kw)
         pfa._process_chunk_spec = spec
-        pfa.mkstemp_clean = mk
         return self
 
     def __exit__(self, *a):
-        self.pfa._process_chunk_spec = self.orig_spec
-        self.pfa.mkstemp_clean = self.orig_mk
+        if self.pfa is not None:
+            self.pfa._process_chunk_spec = self.orig_spec
 
     def loads(self):
-        out = []
-        for nm in self.order:
-            f = self.trace_dir / (nm + '.json')
-            out.append(json.loads(f.read_text()) if f.is_file() else None)
-        return out
+        """the observed loads (any order), None when nothing was observed"""
+        files = sorted(self.trace_dir.glob('load_*.json'))
+        if not files:
+            return None
+        return [json.loads(f.read_text()) for f in files]
 
 
 def part_name(i):
@@ -548,7 +554,7 @@ def model_values(ref, cfg):
     return normalise(ref.X, 'float64').astype(np_dtype)
 
 
-def model_precompute(ctx, ref, cfg, ids, subset=None):
+def model_precompute(ctx, ref, cfg, ids, subset=None, loads=None):
     V = model_values(ref, cfg)
     tree = ref.tree_with_cells(subset)
     cs = cell_set_of(cfg)
@@ -570,7 +576,13 @@ def model_precompute(ctx, ref, cfg, ids, subset=None):
         gid = {g: i for i, g in enumerate(sorted(ref.genes))}
         req['geneLists'] = [[gid[ref.genes[k]] for k in gene_order(ref, cfg, i)]
                             for i in range(len(cfg.files))]
-    out = ctx.model('stats.precompute', req)
+    if loads is not None and 'geneLists' not in req:
+        # the OBSERVED assignment of chunks to workers is handed to the model
+        # (its theorems hold for every assignment that is a partition)
+        req['loads'] = loads
+        out = ctx.model('stats.precomputeLoads', req)
+    else:
+        out = ctx.model('stats.precompute', req)
     return out, tbl['ok']
 
 
@@ -709,9 +721,8 @@ def check_run(ctx, ref, cfg, frontend='list', baseline=None):
                      'n_leaves': len(ref.leaves), 'ok': res['ok'],
                      'err': res['err']})
     if res['tmp_left']:
-        ctx.violation('C09/precompute/scratch-left',
-                      'precompute leaves files in tmp_dir: %r'
-                      % res['tmp_left'][:3], detail)
+        # what is left in tmp_dir is C19's subject, not C09's: recorded only
+        ctx.count('scratch-left-in-tmp_dir')
     eff = effective_label(ref, cfg)
     labelled_in_files = any(
         eff[ref.names[j]] is not None for f in cfg.files for j in f)
@@ -723,7 +734,10 @@ def check_run(ctx, ref, cfg, frontend='list', baseline=None):
     if getattr(cfg, 'gene_orders', None) is not None:
         ctx.count('var-order:%s' % ('differs-between-files' if differ
                                     else 'permuted-alike'))
-    if not res['ok'] and differ and 'gene_names' in (res['err'] or ''):
+    # (a refusal is recognised by its TYPE and situation - a RuntimeError /
+    # ValueError for inputs whose var order differs - never by its wording)
+    if not res['ok'] and differ and (res['err'] or '').split(':')[0] in (
+            'RuntimeError', 'ValueError'):
         # files with the same genes in different column orders are refused
         # (the arrays are accumulated column by column): the correct outcome
         ctx.count('refused:var-order')
@@ -787,8 +801,10 @@ def check_run(ctx, ref, cfg, frontend='list', baseline=None):
                           dict(detail, other_cfg=b_cfg.as_dict(),
                                problems=p2[:5]))
     # (ii) correspondence with the model
+    # the split the run actually used (None when it could not be observed)
+    il = observed_split(ctx, ref, cfg, res, eff, detail)
     if ctx.driver_ok and frontend == 'list' and len(ref.names) <= 5000:
-        out, tbl = model_precompute(ctx, ref, cfg, ids)
+        out, tbl = model_precompute(ctx, ref, cfg, ids, loads=il)
         if 'err' in out:
             mp = [('model-error', out['err'])]
         else:
@@ -812,40 +828,61 @@ def check_run(ctx, ref, cfg, frontend='list', baseline=None):
                          broken='correspondence CTM.Stats.precompute ~ '
                                 'precompute_summary_stats_from_h5ad_list_and_tree'),
                     found_input=False)
-        # the work split actually used
-        tree_cells = set(nm for nm in ref.names if eff[nm] is not None)
-        ml = model_loads(ctx, ref, cfg, tree_cells)
-        impl_loads = res['loads']
-        il = None
-        if impl_loads is not None and None not in impl_loads:
-            try:
-                il = [[[file_index_of(res, cfg, c[0]), c[1], c[2]]
-                       for c in load] for load in impl_loads]
-            except KeyError:
-                ctx.count('trace-skipped:staged-copies-not-identifiable')
-        if il is not None:
-            ctx.traces += 1
-            if 'err' in ml or ml['ok'] != il:
-                ctx.disagreements_checked += 1
-                # failing-input search: is the split still a partition into
-                # at most n_processors loads?
-                flat = [c for load in il for c in load]
-                wantc = []
-                for i, idx in enumerate(cfg.files):
-                    if any(ref.names[j] in tree_cells for j in idx):
-                        for r0 in range(0, len(idx), cfg.rows):
-                            wantc.append([i, r0, min(len(idx), r0 + cfg.rows)])
-                bad = (flat != wantc or len(il) > cfg.n_proc)
-                ctx.violation(
-                    'C09/correspondence/worksplit',
-                    'correspondence stats.worksplit no longer checks '
-                    '(impl loads %r, model %r)' % (il, ml),
-                    dict(detail, impl_loads=il, model_loads=ml,
-                         broken='correspondence CTM.Stats.workSplit ~ work '
-                                'split of _precompute_summary_stats_from_'
-                                'h5ad_and_lookup'),
-                    found_input=bad)
     return stats
+
+
+def observed_split(ctx, ref, cfg, res, eff, detail):
+    """the assignment of chunks to workers the run used, as
+    [[file index, r0, r1], ...] per worker, checked against what the property
+    needs of it: every row of every file that holds a wanted cell is handed
+    out exactly once (rows of other files at most once), to at most
+    n_processors workers.  WHICH worker gets which chunk is not constrained
+    (the statistics must not depend on it)."""
+    impl_loads = res.get('loads')
+    if not impl_loads:
+        ctx.count('split:not-observed')
+        return None
+    try:
+        il = [[[file_index_of(res, cfg, c[0]), c[1], c[2]] for c in load]
+              for load in impl_loads]
+    except KeyError:
+        ctx.count('split:staged-copies-not-identifiable')
+        return None
+    ctx.traces += 1
+    wanted = set(nm for nm in ref.names if eff[nm] is not None)
+    problems = []
+    nonempty = [l for l in il if l]
+    if len(nonempty) > cfg.n_proc:
+        problems.append('%d workers for n_processors=%d'
+                        % (len(nonempty), cfg.n_proc))
+    for i, idx in enumerate(cfg.files):
+        spans = sorted((c[1], c[2]) for l in il for c in l if c[0] == i)
+        covered = []
+        ok = True
+        pos = 0
+        for r0, r1 in spans:
+            if r0 != pos or r1 <= r0:
+                ok = False
+            pos = r1
+        if spans and (not ok or pos != len(idx)):
+            problems.append('rows of file %d handed out as %r (file has %d '
+                            'rows)' % (i, spans, len(idx)))
+        if not spans and any(ref.names[j] in wanted for j in idx):
+            problems.append('file %d holds wanted cells but no chunk of it '
+                            'was handed out' % i)
+    if problems:
+        ctx.violation(
+            'C09/precompute/split-not-a-partition',
+            'the chunks handed to the workers do not deal out every row '
+            'exactly once: %s' % problems[0],
+            dict(detail, observed_loads=il, problems=problems))
+    # the shape the model's own workSplit predicts is recorded, not demanded
+    if ctx.driver_ok and len(ref.names) <= 5000:
+        ml = model_loads(ctx, ref, cfg, wanted)
+        same = ('ok' in ml and sorted(map(repr, ml['ok'])) ==
+                sorted(map(repr, nonempty)))
+        ctx.count('split-shape:%s' % ('as-modelled' if same else 'other'))
+    return il
 
 
 def file_index_of(res, cfg, path_str):
@@ -1649,18 +1686,35 @@ def check_abc(ctx, rng, case=None):
             return
         left = sorted(q.name for q in scratch.iterdir())
         if left:
-            ctx.violation('C09/abc/scratch-left',
-                          'the ABC entry point leaves %r in tmp_dir' % left[:3],
-                          detail)
+            ctx.count('abc:scratch-left-in-tmp_dir')   # C19's subject
         files = {}
         if split and with_col:
             used = [l for l in labels if any(
                 dataset_of[nm] == l and ref.label[nm] is not None
                 for nm in ref.names)]
+            # which file belongs to which dataset: by the documented naming
+            # (<stem>.<label with ' '->'_' and '/'->'.'>.h5); if a file of
+            # that name does not exist, by the dataset recorded in the
+            # file's metadata (the naming scheme is not part of C09)
+            cands = sorted(q for q in out_dir.glob('*.h5'))
+            combined = [q for q in cands if 'combined' in q.name]
+            rest = [q for q in cands if q not in combined]
+            recorded = {}
+            for q in rest:
+                try:
+                    with h5py.File(q, 'r') as f:
+                        md = json.loads(f['metadata'][()].decode())
+                    recorded[md.get('dataset')] = q
+                except Exception:   # noqa
+                    pass
             for l in used:
                 san = l.replace(' ', '_').replace('/', '.')
-                files[l] = out_dir / ('precomputed_stats.%s.h5' % san)
-            files['combined'] = out_dir / 'precomputed_stats.combined.h5'
+                q = out_dir / ('precomputed_stats.%s.h5' % san)
+                if not q.is_file():
+                    q = recorded.get(l, recorded.get(san, q))
+                files[l] = q
+            files['combined'] = combined[0] if combined else \
+                out_dir / 'precomputed_stats.combined.h5'
         else:
             used = []
             files[None] = out_dir / 'precomputed_stats.h5'
